@@ -75,6 +75,19 @@ def build_schema(
     )
 
     if not ignore_extensions:
+        # Definitions of the document are already part of the schema which is
+        # why this cannot use strict mode, extensions of types that are
+        # defined nowhere are still errors.
+        for definition in ast.definitions:
+            if isinstance(
+                definition, _ast.TypeExtension
+            ) and not schema.has_type(definition.name.value):
+                raise ExtensionError(
+                    'Cannot extend undefined type "%s".'
+                    % definition.name.value,
+                    [definition],
+                )
+
         schema = extend_schema(
             schema, ast, additional_types=additional_types, strict=False
         )
